@@ -561,4 +561,13 @@ def rule_names_unchanged(ctx):
 
 
 
-RULES = [('C16.a', rule_a), ('C16.b', rule_b), ('C16.c', rule_c), ('C16.d', rule_d), ('C16.b', rule_plumbing), ('C16.e', rule_e), ('C02.a', rule_setup_layout), ('C16.f', rule_f), ('C12.l', rule_error_conversion), ('C16.g', rule_names_unchanged)]
+
+def rule_adapters_pass_rejections_on(ctx):
+    """(shared C20.p)  A server whose handler is wrapped in an Rx adapter still rejects what its on_setup rejects: the
+    adapters do not swallow the delegate's exceptions (rules/c20.py)."""
+    from .c20 import rule_delegations_propagate
+    rule_delegations_propagate(ctx)
+
+
+
+RULES = [('C16.a', rule_a), ('C16.b', rule_b), ('C16.c', rule_c), ('C16.d', rule_d), ('C16.b', rule_plumbing), ('C16.e', rule_e), ('C02.a', rule_setup_layout), ('C16.f', rule_f), ('C12.l', rule_error_conversion), ('C16.g', rule_names_unchanged), ('C20.p', rule_adapters_pass_rejections_on)]
